@@ -6,6 +6,7 @@ package model
 import (
 	"bytes"
 	"fmt"
+	"hash/fnv"
 	"math"
 	"sort"
 	"strings"
@@ -340,7 +341,14 @@ func render(b *bytes.Buffer, v any) {
 	case float64:
 		fmt.Fprintf(b, "f%v", x)
 	case string:
-		fmt.Fprintf(b, "%q", x)
+		if len(x) > 96 {
+			// long strings are abbreviated; the hash keeps distinct strings distinct in every rendering
+			h := fnv.New32a()
+			h.Write([]byte(x))
+			fmt.Fprintf(b, "%q..<%d bytes #%08x>..%q", x[:12], len(x), h.Sum32(), x[len(x)-6:])
+		} else {
+			fmt.Fprintf(b, "%q", x)
+		}
 	case bool:
 		fmt.Fprintf(b, "%v", x)
 	case time.Time:
